@@ -10,4 +10,4 @@ for _f in sorted(os.listdir(os.path.dirname(__file__))):
 NOT_APPLICABLE = {}
 
 # cfg-guarded hook commits in /repo (short shas), appended as hooks are added
-HOOK_COMMITS = ["08c41c5", "6f973ea", "fc4762b", "ebefd60"]
+# hook commits are read from `git -C /repo log --grep "^verif hook"` by gen_manifest.py
